@@ -100,3 +100,26 @@ func (r *Reader) Read(p []byte) (int, error) {
 	r.pos += n
 	return n, nil
 }
+
+// ChunkReader delivers Data in reads of at most Chunk bytes.
+type ChunkReader struct {
+	Data  []byte
+	Chunk int
+	pos   int
+}
+
+func (r *ChunkReader) Read(p []byte) (int, error) {
+	if r.pos >= len(r.Data) {
+		return 0, io.EOF
+	}
+	n := r.Chunk
+	if n > len(r.Data)-r.pos {
+		n = len(r.Data) - r.pos
+	}
+	if n > len(p) {
+		n = len(p)
+	}
+	copy(p, r.Data[r.pos:r.pos+n])
+	r.pos += n
+	return n, nil
+}
